@@ -750,6 +750,57 @@ def _undetectable_redefinition(hist, qi):
     return any(not (a and b) for a, b in zip(defs, defs[1:]))
 
 
+def _registry_wiped_redefinition(hist, qi):
+    """Known finding C14-fwdref-stale-after-registry-wipe, decided by a small model of beartype's register of decorated
+    class names: a decorated definition of a name that is in the register clears the caches (a resolved forward reference is
+    forgotten) and empties the register; any other decorated definition only adds its name. The query is attributed to the
+    finding when the function's forward reference was resolved to a decorated definition of N, N was then redefined as a
+    decorated class while its name was *not* in the register (so nothing was cleared), and no clear happened afterwards."""
+    q = hist[qi]
+    if q.get('q') != 'callfunc':
+        return False
+    name = None
+    for o in hist[:qi]:
+        if o['op'] == 'mkfunc' and o['f'] == q['f']:
+            name = 'Later2' if 'Later2' in o['text'] else 'Later'
+    if name is None:
+        return False
+    register = set()
+    ver, deco = 0, {}
+    resolved, blame = None, None
+
+    def decorate(n):
+        nonlocal resolved, blame
+        if n in register:
+            resolved, blame = None, None
+            register.clear()
+        register.add(n)
+    mk_seen = False
+    for o in hist[:qi]:
+        k = o['op']
+        if k == 'mkfunc' and o['f'] == q['f']:
+            mk_seen = True
+        elif k == 'redecorate':
+            decorate(o['name'])
+            decorate(o['name'])
+        elif k in ('define', 'defdec'):
+            decorated = (k == 'defdec' and o.get('decorated', True)) and 'junk' not in o
+            unnoticed = decorated and o['n'] not in register
+            if decorated:
+                decorate(o['n'])
+            if o['n'] == name:
+                ver += 1
+                deco[ver] = 'junk' if 'junk' in o else decorated
+                if resolved is not None:
+                    blame = 'registry' if (decorated and unnoticed and deco.get(resolved) is True) else 'other'
+        elif k == 'clear':
+            resolved, blame = None, None
+        elif k == 'query' and o.get('q') == 'callfunc' and o.get('f') == q['f'] and mk_seen:
+            if resolved is None and ver > 0 and deco.get(ver) != 'junk':
+                resolved = ver
+    return resolved is not None and resolved != ver and blame == 'registry'
+
+
 def _why(hist, qi):
     """Classify: is this the repr collision of same-named classes?"""
     names = {}
@@ -762,6 +813,8 @@ def _why(hist, qi):
     tags = [hist[qi]['q']]
     if _undetectable_redefinition(hist, qi):
         tags.append('undecorated_redefinition')
+    if _registry_wiped_redefinition(hist, qi):
+        tags.append('registry_wiped_redefinition')
     if dup:
         tags.append('same_named_classes')
     if any(o['op'] in ('clear', 'redecorate') for o in hist[:qi]):
@@ -791,7 +844,12 @@ def _sig_plain_redefinition(case, v):
     return v.get('kind') == 'history_dependence' and 'undecorated_redefinition' in v.get('key', '')
 
 
-SIGNATURES = {'repr_collision': _sig_repr_collision, 'fwdref_stale_after_undecorated_redefinition': _sig_plain_redefinition}
+def _sig_registry_wipe(case, v):
+    return v.get('kind') == 'history_dependence' and 'registry_wiped_redefinition' in v.get('key', '')
+
+
+SIGNATURES = {'repr_collision': _sig_repr_collision, 'fwdref_stale_after_undecorated_redefinition': _sig_plain_redefinition,
+              'fwdref_stale_after_registry_wipe': _sig_registry_wipe}
 
 
 def describe(case):
